@@ -83,23 +83,23 @@ theorem extend3_spec (e : Int) (p : Path) (hw : wf p = true) (hne : p ≠ []) :
   rw [hrev]
   simp only
   by_cases hc : last = 0 ∧ prev * e ≥ 0
-  · simp only [hc, and_self, if_true, ge_iff_le, List.reverse_cons, List.reverse_reverse, List.append_assoc,
+  · simp only [hc, and_self, if_true, List.reverse_cons, List.reverse_reverse, List.append_assoc,
       List.cons_append, List.nil_append]
     have hc2 : ¬ prev * e < 0 := by omega
     obtain ⟨rfl, _⟩ := hc
     refine ⟨?_, ?_, ?_⟩
-    · rw [wf_append _ _ hwi]; simp [wf_cons, wf]
+    · rw [wf_append _ _ hwi]; simp [wf]
     · rw [usedA_append _ _ hwi, usedA_append _ _ hwi]
-      simp only [usedA_cons, usedA]
+      simp only [usedA]
       rcases same_sign_of_mul_nonneg prev e hc2 with h | h <;> omega
     · rw [usedB_append _ _ hwi, usedB_append _ _ hwi]
-      simp only [usedB_cons, usedB]
+      simp only [usedB]
       rcases same_sign_of_mul_nonneg prev e hc2 with h | h <;> omega
   · simp only [hc, if_false]
     refine ⟨?_, ?_, ?_⟩
-    · rw [wf_append _ _ hw]; simp [wf_cons, wf]
-    · rw [usedA_append _ _ hw]; simp [usedA_cons, usedA]
-    · rw [usedB_append _ _ hw]; simp [usedB_cons, usedB]
+    · rw [wf_append _ _ hw]; simp [wf]
+    · rw [usedA_append _ _ hw]; simp [usedA]
+    · rw [usedB_append _ _ hw]; simp [usedB]
 
 /-- both extensions keep a consuming path consuming, for every sign of the first / last local run -/
 theorem extend_consumes (e5 e3 : Int) (p : Path) (a b : Nat) (hp : consumes p a b) (hne : p ≠ []) :
@@ -163,7 +163,7 @@ theorem fastFrom_consumes (s : Nat → Nat → Int) (g : Int) (la lb delta : Nat
       simp only [hsa, hpl, if_false]
       refine ⟨_, rfl, ?_⟩
       have hc : consumes [0, ((la - shift.toNat : Nat) : Int)] (la - shift.toNat) (la - shift.toNat) := by
-        refine ⟨by simp [wf_cons, wf], by simp [usedA_cons, usedA], by simp [usedB_cons, usedB]⟩
+        refine ⟨by simp [wf], by simp [usedA], by simp [usedB]⟩
       have := extend_consumes (-(shift.toNat : Int)) ((lb : Int) - ((la - shift.toNat : Nat) : Int)) _ _ _ hc (by simp)
       exact consumes_cast this (by omega) (by omega)
     · simp only [hs, if_false] at hdp ⊢
@@ -172,7 +172,7 @@ theorem fastFrom_consumes (s : Nat → Nat → Int) (g : Int) (la lb delta : Nat
       simp only [hsb, hpl, if_false]
       refine ⟨_, rfl, ?_⟩
       have hc : consumes [0, ((lb - (-shift).toNat : Nat) : Int)] (lb - (-shift).toNat) (lb - (-shift).toNat) := by
-        refine ⟨by simp [wf_cons, wf], by simp [usedA_cons, usedA], by simp [usedB_cons, usedB]⟩
+        refine ⟨by simp [wf], by simp [usedA], by simp [usedB]⟩
       have := extend_consumes (((-shift).toNat : Nat) : Int) (((lb - (-shift).toNat : Nat) : Int) - (la : Int)) _ _ _ hc
         (by simp)
       exact consumes_cast this (by omega) (by omega)
